@@ -182,6 +182,17 @@ PROPS["C02"] = {
     ],
 }
 
+PROPS["C03"] = {
+    "technique": "property-based testing with directed collision search (rapid): absent keys whose 24-bit in-bucket hash equals that of a stored key are found with the index's own exported hash functions and queried through JSON-RPC/gRPC/Epoch",
+    "level_text": "Generated epochs with 150..600 extra blocks are indexed (including the address index) and loaded alone or together. For every epoch: every skipped slot around the archived blocks, every absent slot of the epoch whose in-bucket hash collides with a stored slot (up to 12), absent signatures / CIDs / addresses searched until they collide with a stored key, a plainly absent signature and address, and slots/signatures of an epoch that is built but not loaded. The answer must be not-found / epoch-not-available / null / empty - never a block of another slot, a transaction with another first signature, bytes of another CID or signatures of transactions that do not mention the address. Exploration level.",
+    "level_note": "The index's exported DB.GetBucket / Bucket.Load / BucketHeader.Hash are used to find colliding keys (search aid, not oracle). Open finding (see known_findings.json): colliding absent addresses in the key-less pubkey index - excluded by construction and reported as KNOWN-FINDING.",
+    "rule": ("rapid draws 1..3 epoch specs (+150..600 bulk blocks each), a probe seed and an unloaded epoch; non-trivial = at least one absent key that collides with a stored key in the real index was queried; distinct by case hash; the per-class numbers of colliding keys are in class_counts (n-colliding-*)"),
+    "assumptions": ["sha-256/xxhash behave as random functions for the collision search"],
+    "units": [
+        {"name": "absent-keys", "pkg": ".", "run": "TestVfC03", "replay": "TestVfReplayC03", "checks": T(24, 800), "shards": T(8, 16), "timeout": T(900, 3000), "transforms": GSFA_FASTPOLL, "env": ROOT_ENV},
+    ],
+}
+
 
 # properties not (yet) claimed by a check; kept current by hand
 NOT_APPLICABLE = [
